@@ -84,6 +84,15 @@ def pad_to(prefix, w, fill="a"):
     return s if width(s) == w else None
 
 
+def padx(prefix, w, chars):
+    """extend `prefix` to visual width w with the characters of `chars`, taken in turn"""
+    s, i = prefix, 0
+    while width(s) < w:
+        s += chars[i % len(chars)]
+        i += 1
+    return s
+
+
 def line_cases(rng, w):
     """a line of visual width w in several kinds/contexts: (text of the file, line number, kind)"""
     out = []
@@ -231,6 +240,29 @@ def run(res, tier, br, model_ok=True, search=False):
         c = pad_to("// ", w, "c")
         check("l.c", "int\tg_first;\n" + c, "LINE_TOO_LONG", 2, w > 80, "comment-last-line-no-newline", w, 80)
     check("l.c", "int\tg_first;\n#define AAA \"" + "s" * 70 + "\"", "LINE_TOO_LONG", 2, True, "code-last-line-no-newline", 84, 80)
+    # the same boundary for a file STORED ON DISK and read by the real command line, with characters outside ASCII on
+    # the measured line (one column each): comments of each kind, a string in a code line
+    import diskcheck
+    for w in (range(77, 87) if big else (79, 80, 81, 82)):
+        for ch in (diskcheck.NON_ASCII if big else rng.sample(diskcheck.NON_ASCII, 2)):
+            cases = [("disk-line-comment", "int\tg_first;\n" + padx("// ", w, ch) + "\n", 2),
+                     ("disk-block-one-line", "int\tg_first;\n" + padx("/* ", w - 3, ch) + " */\n", 2),
+                     ("disk-block-interior", "int\tg_first;\n/*\n" + padx("** ", w, ch) + "\n*/\n", 3),
+                     ("disk-block-last", "int\tg_first;\n/*\n** x\n" + padx("", w - 2, ch) + "*/\n", 4),
+                     ("disk-string", "int\tg_first;\n" + padx("char\t*g_s = \"", w - 2, ch) + "\";\n", 2)]
+            for kind, src, line in cases:
+                got = diskcheck.from_disk({"d.c": src})
+                res.count("boundary", 1, disk=1)
+                res.nontriv((kind, w, ch))
+                entry = (got["files"].get("d.c") or [None])[0]
+                rp = {"kind": "disk-limit", "name": "d.c", "src": src, "line": line, "expected": w > 80, "what": f"{kind} n={w} limit=80"}
+                if entry is None:
+                    res.report("limit:not-analysed", f"{kind} n={w}: the command line printed no report ({got.get('exc')}, exit {got['exit']})", rp)
+                    continue
+                have = any(c == "LINE_TOO_LONG" and l == line for _, c, l, _ in entry["diags"])
+                if have != (w > 80):
+                    res.report(f"limit:LINE_TOO_LONG:{'missing' if w > 80 else 'spurious'}:{kind}",
+                               f"{kind}: width {w} with {ch!r} on the line, file read from disk: LINE_TOO_LONG is {'missing' if w > 80 else 'spurious'} on line {line}", rp)
     # 25 lines, with surrounding functions and nesting
     for n in range(22, 32):
         body, real = func(n)
@@ -337,7 +369,22 @@ def reproduce(res, k):
         res.report(k["signature"], "recorded input of a listed finding", {"kind": "limit", "src": k["input"]})
 
 
+def replay_disk(rp):
+    import diskcheck
+    got = diskcheck.from_disk({rp["name"]: rp["src"]})
+    entry = (got["files"].get(rp["name"]) or [None])[0]
+    print("source  :", repr(rp["src"][-200:]))
+    print("observed:", entry)
+    print("expected: LINE_TOO_LONG on line", rp["line"], "is", rp["expected"], "(", rp["what"], ")")
+    if entry is None:
+        return 1
+    have = any(c == "LINE_TOO_LONG" and l == rp["line"] for _, c, l, _ in entry["diags"])
+    return 1 if have != rp["expected"] else 0
+
+
 def replay(rp):
+    if rp.get("kind") == "disk-limit":
+        return replay_disk(rp)
     if rp.get("kind") != "limit":
         print("replay names a broken obligation/correspondence:", rp.get("broken"))
         return 1
